@@ -44,7 +44,7 @@ Quick == ~("MC_TIER" \in DOMAIN IOEnv /\ IOEnv.MC_TIER = "thorough")
 Mut   == IF "MC_MUT" \in DOMAIN IOEnv THEN IOEnv.MC_MUT ELSE "none"
 Shapes == {s \in [nbu : 1..3, nbv : 1..3, nel : 1..2, nq : 1..2, ncu : 1..2] :
              Quick => ((s.ncu = 1 /\ s.nq = 2) \/ (s.ncu = 2 /\ s.nq = 1))}
-TableN(s) == IF Quick THEN 3 ELSE 4
+TableN(s) == IF Quick \/ s.ncu = 2 \/ s.nq = 1 THEN 3 ELSE 4
 
 \* coefficient vectors for the pairing clause (all of {-1,0,1,2}^N is covered by bilinearity once the unit
 \* vectors and one dense vector agree; these are the ones evaluated)
